@@ -81,28 +81,28 @@ Proof.
   replace (Q2R 0) with 0 by (unfold Q2R; simpl; field). ring.
 Qed.
 
-Lemma find_root_loop_R : forall data To target fuel x fx t ft,
+Lemma find_root_loop_R : forall dff data To target fuel x fx t ft,
   fx = fR data To target x ->
-  find_root_loop R numR data To target fuel x fx = Ok (t, ft) -> ft = fR data To target t.
+  find_root_loop R numR dff data To target fuel x fx = Ok (t, ft) -> ft = fR data To target t.
 Proof.
-  intros data To target fuel. induction fuel as [|k IH]; intros x fx t ft Hfx H; simpl in H.
+  intros dff data To target fuel. induction fuel as [|k IH]; intros x fx t ft Hfx H; simpl in H.
   - injection H as <- <-. exact Hfx.
   - destruct (f R numR data To target x) as [fx'| |] eqn:E1; simpl in H; try discriminate.
     unfold dec, lt in H. try rewrite lt_numR in H; cbn [nlt numR] in H.
     destruct (Rlt_dec _ _).
     + injection H as <- <-. exact Hfx.
-    + destruct (df R numR data To x) as [d| |]; simpl in H; try discriminate.
+    + destruct (df R numR dff data To x) as [d| |]; simpl in H; try discriminate.
       destruct (sdiv R numR fx d) as [s| |]; simpl in H; try discriminate.
       destruct (f R numR data To target (x - s)) as [fx2| |] eqn:E2; simpl in H; try discriminate.
       apply (IH _ _ _ _ (f_R _ _ _ _ _ E2) H).
 Qed.
 
-Lemma find_root_R : forall data To target x t ft,
-  find_root R numR data To target x = Ok (t, ft) -> ft = fR data To target t.
+Lemma find_root_R : forall dff data To target x t ft,
+  find_root R numR dff data To target x = Ok (t, ft) -> ft = fR data To target t.
 Proof.
-  intros data To target x t ft H. unfold find_root in H.
+  intros dff data To target x t ft H. unfold find_root in H.
   destruct (f R numR data To target x) as [fx| |] eqn:E; cbn [rbind] in H; try discriminate.
-  apply (find_root_loop_R _ _ _ _ _ _ _ _ (f_R _ _ _ _ _ E) H).
+  apply (find_root_loop_R _ _ _ _ _ _ _ _ _ (f_R _ _ _ _ _ E) H).
 Qed.
 
 Lemma Q2R_100 : Q2R 100 = 100.  Proof. unfold Q2R; simpl; field. Qed.
@@ -111,15 +111,24 @@ Lemma Q2R_zero : Q2R 0 = 0.  Proof. unfold Q2R; simpl; field. Qed.
 
 (* whenever the model returns a time, the final guard makes it accurate to 0.1% for the function f
    it solves *)
-Theorem returned_time_accurate_f : forall data To target t, 0 < target ->
-  decay_time_core R numR data To target = Ok (Ret t) ->
+Theorem returned_time_accurate_f : forall ev dff data To target t, 0 < target ->
+  decay_time_core R numR ev dff data To target = Ok (Ret t) ->
   Rabs (fR data To target t) <= / 1000 * target.
 Proof.
-  intros data To target t Htg H. unfold decay_time_core in H.
+  intros ev dff data To target t Htg H. unfold decay_time_core in H.
   destruct (f R numR data To target _) as [f0| |]; cbn [rbind] in H; try discriminate.
-  unfold dec, lt in H. try rewrite lt_numR in H; cbn [nlt numR] in H. destruct (Rlt_dec f0 target); [discriminate|].
+  assert (H' : (do x0 <- initial_guess R numR To target data;;
+                do tf <- find_root R numR dff data To target x0;;
+                (let '(t, ft) := tf in
+                 do pe <- sdiv R numR (nmul R numR (q R numR 100) (nabs R numR ft)) target;;
+                 dec (lt R numR (q R numR (1 # 10)) pe) (fun bad : bool => if bad then Err RuntimeErr else Ok (Ret t))))
+               = Ok (Ret t)).
+  { destruct ev; unfold dec, lt in H; cbn [nlt numR] in H.
+    - destruct (Rlt_dec f0 target); [discriminate|exact H].
+    - destruct (Rlt_dec _ f0); cbn [negb] in H; [exact H|discriminate]. }
+  clear H. rename H' into H.
   destruct (initial_guess R numR To target data) as [x0| |]; cbn [rbind] in H; try discriminate.
-  destruct (find_root R numR data To target x0) as [[t' ft]| |] eqn:E; cbn [rbind] in H; try discriminate.
+  destruct (find_root R numR dff data To target x0) as [[t' ft]| |] eqn:E; cbn [rbind] in H; try discriminate.
   apply find_root_R in E.
   destruct (sdiv R numR _ target) as [pe| |] eqn:Ep; cbn [rbind] in H; try discriminate.
   unfold dec, lt in H. try rewrite lt_numR in H; cbn [nlt numR] in H. destruct (Rlt_dec _ pe) as [|Hpe]; [discriminate|].
@@ -154,12 +163,12 @@ Qed.
 Theorem f_is_true_activity : forall rem To target t, fR (data_at rem To) To target t = true_A rem t - target.
 Proof. intros. unfold fR. rewrite sumR_true_A. reflexivity. Qed.
 
-Theorem returned_time_accurate : forall rem To target t, 0 < target ->
-  decay_time_core R numR (data_at rem To) To target = Ok (Ret t) ->
+Theorem returned_time_accurate : forall ev dff rem To target t, 0 < target ->
+  decay_time_core R numR ev dff (data_at rem To) To target = Ok (Ret t) ->
   Rabs (true_A rem t - target) <= / 1000 * target.
 Proof.
-  intros rem To target t Htg H. rewrite <- (f_is_true_activity rem To).
-  apply returned_time_accurate_f; assumption.
+  intros ev dff rem To target t Htg H. rewrite <- (f_is_true_activity rem To).
+  apply (returned_time_accurate_f ev dff); assumption.
 Qed.
 
 Theorem f_independent_of_rest_list : forall rem To To' target t,
@@ -210,27 +219,43 @@ Qed.
 
 (* ------------------------------------------------------------------ the early exit *)
 (* the model returns 0 exactly when f(0) < target, i.e. when A(0) < 2 target *)
-Theorem zero_iff_below_twice : forall data To target f0,
+Theorem zero_iff_below_twice : forall dff data To target f0,
   f R numR data To target 0 = Ok f0 ->
-  (decay_time_core R numR data To target = Ok RetZero <-> sumR data To 0 < 2 * target).
+  (decay_time_core R numR true dff data To target = Ok RetZero <-> sumR data To 0 < 2 * target).
 Proof.
-  intros data To target f0 Hf. unfold decay_time_core, q. simpl nQ. rewrite Q2R_zero, Hf. cbn [rbind].
+  intros dff data To target f0 Hf. unfold decay_time_core, q. simpl nQ. rewrite Q2R_zero, Hf. cbn [rbind].
   apply f_R in Hf. unfold fR in Hf. unfold dec, lt. try rewrite lt_numR; cbn [nlt numR].
   destruct (Rlt_dec f0 target) as [L|L].
   - split; [intro; lra|reflexivity].
   - split; [|intro; exfalso; lra]. intro H.
     destruct (initial_guess R numR To target data) as [x0| |]; cbn [rbind] in H; try discriminate.
-    destruct (find_root R numR data To target x0) as [[t' ft]| |]; cbn [rbind] in H; try discriminate.
+    destruct (find_root R numR dff data To target x0) as [[t' ft]| |]; cbn [rbind] in H; try discriminate.
     destruct (sdiv R numR _ target) as [pe| |]; cbn [rbind] in H; try discriminate.
     unfold dec, lt in H. try rewrite lt_numR in H; cbn [nlt numR] in H. destruct (Rlt_dec _ pe); discriminate.
 Qed.
 
-(* partial: already at or below the target -> 0 *)
-Theorem already_below_returns_zero : forall rem To target f0, 0 < target ->
-  f R numR (data_at rem To) To target 0 = Ok f0 ->
-  true_A rem 0 <= target -> decay_time_core R numR (data_at rem To) To target = Ok RetZero.
+(* with the repaired test f(0) <= 0 the early exit is the one the property states *)
+Theorem zero_iff_already_below_repaired : forall dff data To target f0,
+  f R numR data To target 0 = Ok f0 ->
+  (decay_time_core R numR false dff data To target = Ok RetZero <-> sumR data To 0 <= target).
 Proof.
-  intros rem To target f0 Htg Hf Hle. apply (zero_iff_below_twice _ _ _ f0 Hf).
+  intros dff data To target f0 Hf. unfold decay_time_core, q. simpl nQ. rewrite Q2R_zero, Hf. cbn [rbind].
+  apply f_R in Hf. unfold fR in Hf. unfold dec, lt. cbn [nlt numR]. simpl nQ. rewrite Q2R_zero.
+  destruct (Rlt_dec 0 f0) as [L|L]; cbn [negb].
+  - split; [|intro; exfalso; lra]. intro H.
+    destruct (initial_guess R numR To target data) as [x0| |]; cbn [rbind] in H; try discriminate.
+    destruct (find_root R numR dff data To target x0) as [[t' ft]| |]; cbn [rbind] in H; try discriminate.
+    destruct (sdiv R numR _ target) as [pe| |]; cbn [rbind] in H; try discriminate.
+    unfold dec, lt in H. cbn [nlt numR] in H. destruct (Rlt_dec _ pe); discriminate.
+  - split; [intro; lra|reflexivity].
+Qed.
+
+(* partial: already at or below the target -> 0 *)
+Theorem already_below_returns_zero : forall dff rem To target f0, 0 < target ->
+  f R numR (data_at rem To) To target 0 = Ok f0 ->
+  true_A rem 0 <= target -> decay_time_core R numR true dff (data_at rem To) To target = Ok RetZero.
+Proof.
+  intros dff rem To target f0 Htg Hf Hle. apply (zero_iff_below_twice dff _ _ _ f0 Hf).
   rewrite sumR_true_A. lra.
 Qed.
 
@@ -239,18 +264,18 @@ Qed.
    is returned *)
 Theorem zero_iff_already_below_refuted :
   exists rem To target, physical_rem rem /\ 0 < target /\ target < true_A rem 0 /\
-    decay_time_core R numR (data_at rem To) To target = Ok RetZero.
+    forall dff, decay_time_core R numR true dff (data_at rem To) To target = Ok RetZero.
 Proof.
   exists [(3, 1)], 0, 2.
   assert (HA : true_A [(3, 1)] 0 = 3).
   { simpl. replace (- 0 / 1) with 0 by field. rewrite Rpower_O by lra. ring. }
-  split; [repeat constructor; simpl; lra|]. split; [lra|]. split; [rewrite HA; lra|].
+  split; [repeat constructor; simpl; lra|]. split; [lra|]. split; [rewrite HA; lra|]. intro dff.
   assert (Hf : exists f0, f R numR (data_at [(3, 1)] 0) 0 2 0 = Ok f0).
   { unfold f, data_at. simpl map. simpl fsum. unfold sexp, dec, lt. try rewrite lt_numR; cbn [nlt numR].
     destruct (Rlt_dec _ _) as [L|L].
     - exfalso. simpl in L. replace (- (ln 2 / 1 * (0 - 0))) with 0 in L by field.
       unfold q in L. simpl in L. unfold EXPMAX, Q2R in L. simpl in L. lra.
     - simpl. eexists. reflexivity. }
-  destruct Hf as [f0 Hf]. apply (zero_iff_below_twice _ _ _ f0 Hf).
+  destruct Hf as [f0 Hf]. apply (zero_iff_below_twice dff _ _ _ f0 Hf).
   rewrite sumR_true_A, HA. lra.
 Qed.
